@@ -374,18 +374,45 @@ def run_for_else(P, rep, rule="R-EXCL"):
     if eb in P.reach(fn, P.succ(fn)[bb]) or bb in P.reach(fn, P.succ(fn)[eb]):
         rep.viol(rule, "For else exclusive", P.where(fn), "the else branch and the loop body can both run in one evaluation")
         return
-    # else hangs off the `len == 0` edge of a switch on Vec::len
-    lens = [(bi, t) for bi, t in P.calls(fn) if t.get("f") and t["f"]["name"].endswith("Vec::<T, A>::len")]
+    # else hangs off the "selected vector is empty" edge: a switch on Vec::len (0 arm), on `len == 0` / `len != 0`,
+    # or on Vec::is_empty / `!is_empty`
+    tests = [(bi, t, "len") for bi, t in P.calls(fn) if t.get("f") and t["f"]["name"].endswith("Vec::<T, A>::len")]
+    tests += [(bi, t, "is_empty") for bi, t in P.calls(fn) if t.get("f") and t["f"]["name"].endswith("Vec::<T, A>::is_empty")]
     ok = False
-    for lb, lt in lens:
+    for lb, lt, kind in tests:
         cur = lt["t"]
+        val = lt["d"][0]
+        # polarity: does a true/non-zero... we track (local, meaning) where meaning in {"len", "empty", "nonempty"}
+        meaning = "len" if kind == "len" else "empty"
         for _ in range(6):
-            tt = fn.blocks[cur]["t"]
+            b = fn.blocks[cur]
+            for st in b["s"]:
+                if st[0] != "a" or st[1][1]:
+                    continue
+                rv = st[2]
+                if rv["k"] == "use" and op_local(rv["o"]) and op_local(rv["o"])[0] == val and not op_local(rv["o"])[1]:
+                    val = st[1][0]
+                elif rv["k"] == "un" and rv.get("op") == "Not" and op_local(rv["o"]) and op_local(rv["o"])[0] == val and meaning != "len":
+                    val = st[1][0]
+                    meaning = "nonempty" if meaning == "empty" else "empty"
+                elif rv["k"] == "bin" and rv["op"] in ("Eq", "Ne", "Gt") and meaning == "len":
+                    la = op_local(rv["a"])
+                    if la and la[0] == val and rv["b"][0] == "k" and isinstance(rv["b"][1], dict) and rv["b"][1].get("val") == 0:
+                        val = st[1][0]
+                        meaning = "empty" if rv["op"] == "Eq" else "nonempty"
+            tt = b["t"]
             if tt["k"] == "switch":
                 ol = op_local(tt["o"])
-                if ol and ol[0] == lt["d"][0]:
+                if ol and ol[0] == val:
                     zero = [tb for v, tb in tt["t"] if v == 0]
-                    if zero and eb in P.reach(fn, zero) and bb not in P.reach(fn, zero) and eb not in P.reach(fn, [tt["else"]]):
+                    other = [tt["else"]] + [tb for v, tb in tt["t"] if v != 0]
+                    if meaning in ("len", "nonempty"):
+                        empty_edge, full_edge = zero, other
+                    else:
+                        empty_edge, full_edge = other, zero
+                    if meaning == "len" and len(tt["t"]) != 1:
+                        break
+                    if empty_edge and eb in P.reach(fn, empty_edge) and bb not in P.reach(fn, empty_edge) and eb not in P.reach(fn, full_edge):
                         ok = True
                 break
             if tt["k"] in ("goto", "drop"):
@@ -393,9 +420,9 @@ def run_for_else(P, rep, rule="R-EXCL"):
             else:
                 break
     if ok:
-        rep.ok(rule, "For else", P.where(fn), "else renders only on the len()==0 edge; body only on the other")
+        rep.ok(rule, "For else", P.where(fn), "else renders only on the selected-vector-is-empty edge; body only on the other")
     else:
-        rep.viol(rule, "For else guard", P.where(fn), "the else branch is not selected by `selected.len() == 0`")
+        rep.viol(rule, "For else guard", P.where(fn), "the else branch is not selected by the emptiness of the selected vector (`len() == 0` / `is_empty()`)")
 
 
 # ---------------------------------------------------------------------------------------
